@@ -323,7 +323,8 @@ def build_object(spec, enums):
         if spec.get("titles"):
             kw["fields_titles"] = dict(spec["titles"])
         if spec.get("limits") is not None:
-            kw["limits"] = tuple(spec["limits"])
+            # (n_first, n_last) given as a tuple or as a list
+            kw["limits"] = tuple(spec["limits"]) if len(spec.get("records") or ()) % 2 else list(spec["limits"])
         if spec.get("enhanced"):
             # records of a complex structure: the positions come with the format ("name<-0.1")
             kw.pop("fields", None)
